@@ -29,7 +29,7 @@ CHECKS = {'encoder': ['C02', 'C03', 'C13', 'C07', 'C01', 'C05', 'C04', 'C06', 'C
           'utils': ['C11', 'C09', 'C10', 'C12', 'C14'],
           'writers': ['C11', 'C09', 'C10', 'C12', 'C14'],
           'helpers': ['C16', 'C14'],
-          '__init__': ['C12', 'C01', 'C14', 'C08', 'C11'],
+          '__init__': ['C12', 'C09', 'C01', 'C14', 'C08', 'C11'],
           'cli': ['C12', 'C14'],
           'consts': ['C02', 'C03', 'C13', 'C01', 'C04']}
 SWAP = {ast.Lt: ast.LtE, ast.LtE: ast.Lt, ast.Gt: ast.GtE, ast.GtE: ast.Gt, ast.Eq: ast.NotEq, ast.NotEq: ast.Eq,
